@@ -166,7 +166,7 @@ PROPS = {
     "C01": {"ready": True, "replay": c01_suite.replay, "suites": [lambda v, tier, seed: c01_suite.run(v, tier, seed)],
             "partial": "cross-process determinism of DefaultHasher/Pcg64 and the order of equal-depth start states are observed, not proved; "
                        "the theorems cover the hash-order independence of dump_events/snapshot and of crash_node"},
-    "C04": {"ready": True, "partial": PARTIAL_D1 + "; the end-to-end theorem sim_run_covered_partial (simulated run after the snapshot is covered by an Ok exploration) assumes duplication and corruption rates zero (any drop rate), no crash/recover after the snapshot, exact time arithmetic (finding D16 is where f64 breaks it) and goal/prune only at states without pending events; with duplication, corruption or crashes the inclusion is checked on the implementation (simulated walks) only",
+    "C04": {"ready": True, "partial": PARTIAL_D1 + "; the end-to-end theorems (simulated run after the snapshot is covered by an Ok exploration) are sim_run_covered_partial (duplication and corruption rates zero, any drop rate) and sim_run_covered_fates (arbitrary rates, under FreshSendsFrom: when the network can duplicate or corrupt, no handler sends a message whose (message, sender, receiver) triple or that of its corruption is already in the air); both assume no crash/recover after the snapshot, exact time arithmetic (finding D16 is where f64 breaks it) and goal/prune only at states without pending events; with repeated identical messages under duplication/corruption, or crashes, the inclusion is checked on the implementation (simulated walks) only",
             "replay": sim_replay, "suites": [snapshot_check(walk=10, routes=False, fp=True)]},
     "C05": {"ready": True, "replay": auto_replay,
             "suites": [sim("sim_network", "C05", dict(p_fault=0.6, p_link=0.6, p_crash=0.3, nodes=(2, 3), procs=(2, 4)),
